@@ -43,18 +43,24 @@ def run_impl(chunk):
     return code, out, err
 
 
-def run_all(cases, jobs=16, chunks_per_job=4):
+def run_all(cases, jobs=16, chunks_per_job=6):
     """returns (model: id->lines, impl: id->lines, errors: list of str)"""
     n = max(1, jobs * chunks_per_job)
-    # interleave so that heavy cases spread over chunks
-    chunks = [cases[i::n] for i in range(n)]
-    chunks = [c for c in chunks if c]
+    # contiguous blocks: cases of one component (and neighbouring parameter tuples) run in the same process, so that
+    # state leaking from one construction into the next (C15) has a chance to show
+    size = max(1, -(-len(cases) // n))
+    chunks = [cases[i:i + size] for i in range(0, len(cases), size)]
     model, impl, errors = {}, {}, []
     with cf.ThreadPoolExecutor(max_workers=jobs) as ex:
         futs = {}
         for c in chunks:
-            futs[ex.submit(run_model, c)] = ("model", c)
-            futs[ex.submit(run_impl, c)] = ("impl", c)
+            # I lines (interleaved objects) go to the implementation only; their per-object S lines to the model only
+            cm = [l for l in c if not l.startswith("I ")]
+            ci = [l for l in c if not l.startswith("S inter.")]
+            if cm:
+                futs[ex.submit(run_model, cm)] = ("model", cm)
+            if ci:
+                futs[ex.submit(run_impl, ci)] = ("impl", ci)
         for f in cf.as_completed(futs):
             side, c = futs[f]
             try:
